@@ -14,13 +14,14 @@ CHECKS = {
         text='PARTIAL (source level; the extensions cannot be built here). Theorems in coq/Props/C20.v about definitions regenerated from '
              'cmoment_tensor_conversion.pyx, cprobability.pyx and the Python modules: the Hudson (u,v) kernel equals tk_uv for all tau, k; '
              'the (tau,k) kernel equals E_tk on sorted eigenvalues; the lune kernel (no clip, E0==E2 test) equals E_GD on sorted non-zero '
-             'eigenvalues; the strike/dip/rake kernel equals FP_SDR on unit vectors whose normal points upwards; the polarity kernel '
+             'eigenvalues; the Tape-parameter -> six-vector kernel equals Tape_MT6 for all parameters with |h| <= 1; the strike/dip/rake '
+             'kernel equals FP_SDR on unit vectors whose normal points upwards; the polarity kernel '
              'equals the Python per-station polarity likelihood; the polarity-probability kernel equals it for X != 0 or p+ + p- = 1 '
              '(and provably differs otherwise: known finding); the amplitude-ratio kernel on signed amplitudes equals the Python kernel '
              'for every odd erf with Phi = (1+erf(./sqrt2))/2; the scale-combination kernels equal the combine_mu step. For every real '
              'input, where the (skipped) *_cython tests compare a few fixed inputs.',
         note=AX_R + 'NOT covered: the compiled binaries, C arithmetic and memory views, the station/sample loops and dispatch wrappers, '
-             'cTape_MT6 (executed against Tape_MT6 but not proved), random number generation, log-domain reductions, and the extension '
+             'random number generation, log-domain reductions, and the extension '
              'modules cmarkov_chain_monte_carlo and cscatangle - no Cython toolchain exists in this environment and those are loops over '
              'typed memory views outside the translated fragment. tools/py2coq/pyx.py is trusted textual glue.',
         design='6 C20'),
